@@ -3123,7 +3123,10 @@ def update_working_tree(
                             f"Please commit your changes or stash them before you switch branches."
                         )
 
-    # Apply the changes
+    # Apply the changes: first everything that goes away, then everything that
+    # is written. tree_changes() reports "add d" before "delete d/x" when a
+    # directory is replaced by a file; the directory has to be emptied (and is
+    # then removed, see _remove_empty_parents) before the file can be created.
     for change in changes:
         if change.type in (CHANGE_DELETE, CHANGE_RENAME):
             # Remove file/directory
@@ -3144,6 +3147,7 @@ def update_working_tree(
 
             _transition_to_absent(repo, path, full_path, delete_stat, index)
 
+    for change in changes:
         if change.type in (
             CHANGE_ADD,
             CHANGE_MODIFY,
